@@ -13,8 +13,8 @@ CLAIMED = {
   text="Proof of soundness, with arbitrary ghost concrete operands, of every operation of bound<z>, interval<z>, sign, constant, boolean_value, small_range congruence and the interval-congruence reduced product, and of exactness (tightness) of interval + - * unary-, join and meet as 'result equals the textbook least interval'. Non-linear facts (monotonicity of * and truncating /) are lemma schemas over the mathematical integers discharged by z3 and cvc5 on every run and used as explicit instances.",
   note=TRUST + "models/zmodel.c integer model of z_number with inputs bounded by 2^40 (larger magnitudes assumed to behave alike); lemma files lemmas/*.smt2; interval::operator/ recursion assumed to terminate (enforce-contract-rec); interval::Shl proved per shift amount 0..58; q_number instantiations not covered; disjunctive intervals (unit dis_interval): BOUNDED (<= 2 disjuncts per operand) and only constructors / normalisation, is_bottom, is_top, approx, ==, <= and meet - join, widening, narrowing and the arithmetic of dis_interval have no decided check; congruence meet/mul/div/rem/Shl bounded (small moduli)."),
  'C04': dict(
-  text="Proof, for the scalar lattices (interval, sign, constant, boolean_value, small_range; congruence and wrapped_interval where enabled) that <= answers yes on the same object, with bottom on the left and top on the right, that a yes implies inclusion of concretisations (ghost point), that join/meet contain union/intersection, and that is_bottom/is_top agree with bottom()/top(); and for the environment layer (separate_domain, discrete_domain) proof of the bottom/top bookkeeping of <=, ==, |, &, ||, &&, set, at, forget and of the operation objects GIVEN finite-map contracts of the patricia trees; plus (unit pttree, BOUNDED) the real tree::compare on small trees.",
-  note=TRUST + "The patricia-tree algorithms (insert/remove/merge/compare/lookup) are ASSUMED to implement finite maps (uninterpreted observers); graph domains (split_dbm, split_oct, sparse_dbm), products, powerset are not covered."),
+  text="Proof, for the scalar lattices (interval, sign, constant, boolean_value, small_range; congruence and wrapped_interval where enabled) that <= answers yes on the same object, with bottom on the left and top on the right, that a yes implies inclusion of concretisations (ghost point), that join/meet contain union/intersection, and that is_bottom/is_top agree with bottom()/top(); and for the environment layer (separate_domain, discrete_domain) proof of the bottom/top bookkeeping of <=, ==, |, &, ||, &&, set, at, forget and of the operation objects GIVEN finite-map contracts of the patricia trees; proof for basic_domain_product2<D1,D2> (component-wise order, canonical bottom, join, meet, is_bottom / is_top) over ghost component domains that satisfy the lattice hypotheses; plus (unit pttree, BOUNDED) the real tree::compare on small trees.",
+  note=TRUST + "The patricia-tree algorithms (insert/remove/merge/compare/lookup) are ASSUMED to implement finite maps (uninterpreted observers); graph domains (split_dbm, split_oct, sparse_dbm), reduced / numerical products, powerset are not covered; unit prod ASSUMES the lattice hypotheses of its two ghost component domains (listed in the evidence)."),
  'C05': dict(
   text="Operator-level proof: widening of interval / sign / constant / boolean / small_range (and congruence, wrapped_interval, interval with thresholds where enabled) is an upper bound of both arguments, is stationary when the argument is included, and otherwise strictly increases a rank bounded by a constant (interval: number of infinite bounds <= 2), so every widening chain is stationary after finitely many strict steps; narrowing of a decreasing pair keeps every element of its second argument; the separate_domain widening/narrowing operation objects drop/keep bindings as required; (unit fixpo) the iterator's extrapolate() applies widening exactly when iteration > widening_delay; (unit fixvisit, BOUNDED) the real wto_iterator::visit(cycle) hands extrapolate the number of times the head has been iterated, on the value the pass was computed from and the join of all predecessors' posts, and leaves the ascending loop only after new_pre <= pre answered yes. Engine-level termination of whole analyses is NOT decided: it is reduced on paper to these facts plus the unverified WTO construction and domain-level widenings outside the scalar abstractions.",
   note=TRUST + "'bounded strictly increasing rank => stationary' is an arithmetic step stated, not machine-checked; graph-domain, powerset, term-domain widenings and inter-procedural recursion widening are not covered; thresholds: |T| <= 6 (bounded), rational bounds bounded (small numerators/denominators); unit fixvisit is bounded (<= 3 ascending passes, <= 2 descending, <= 2 predecessors, cycle body empty or one vertex) and has no native replay."),
